@@ -519,22 +519,31 @@ func (e *Entity) Commit(repo repository.ClockedRepo) error {
 		return errors.Wrapf(err, "can't commit a %s with invalid data", e.Definition.Typename)
 	}
 
-	for len(e.staging) > 0 {
+	// Work on copies: if anything fails on the way (clock, git objects, reference), the entity
+	// must stay as it was, pending operations included, so that it doesn't pretend to hold
+	// operations that the repository doesn't have and so that the commit can be tried again.
+	staging := e.staging
+	lastCommit := e.lastCommit
+	editTime := e.editTime
+	createTime := e.createTime
+	var committed []Operation
+
+	for len(staging) > 0 {
 		var author identity.Interface
 		var toCommit []Operation
 
 		// Split into chunks with the same author
-		for len(e.staging) > 0 {
-			op := e.staging[0]
+		for len(staging) > 0 {
+			op := staging[0]
 			if author != nil && op.Author().Id() != author.Id() {
 				break
 			}
-			author = e.staging[0].Author()
+			author = staging[0].Author()
 			toCommit = append(toCommit, op)
-			e.staging = e.staging[1:]
+			staging = staging[1:]
 		}
 
-		e.editTime, err = repo.Increment(fmt.Sprintf(editClockPattern, e.Namespace))
+		editTime, err = repo.Increment(fmt.Sprintf(editClockPattern, e.Namespace))
 		if err != nil {
 			return err
 		}
@@ -542,20 +551,20 @@ func (e *Entity) Commit(repo repository.ClockedRepo) error {
 		opp := &operationPack{
 			Author:     author,
 			Operations: toCommit,
-			EditTime:   e.editTime,
+			EditTime:   editTime,
 		}
 
-		if e.lastCommit == "" {
-			e.createTime, err = repo.Increment(fmt.Sprintf(creationClockPattern, e.Namespace))
+		if lastCommit == "" {
+			createTime, err = repo.Increment(fmt.Sprintf(creationClockPattern, e.Namespace))
 			if err != nil {
 				return err
 			}
-			opp.CreateTime = e.createTime
+			opp.CreateTime = createTime
 		}
 
 		var parentCommit []repository.Hash
-		if e.lastCommit != "" {
-			parentCommit = []repository.Hash{e.lastCommit}
+		if lastCommit != "" {
+			parentCommit = []repository.Hash{lastCommit}
 		}
 
 		commitHash, err := opp.Write(e.Definition, repo, parentCommit...)
@@ -563,18 +572,27 @@ func (e *Entity) Commit(repo repository.ClockedRepo) error {
 			return err
 		}
 
-		e.lastCommit = commitHash
-		e.ops = append(e.ops, toCommit...)
+		lastCommit = commitHash
+		committed = append(committed, toCommit...)
 	}
-
-	// not strictly necessary but make equality testing easier in tests
-	e.staging = nil
 
 	// Create or update the Git reference for this entity
 	// When pushing later, the remote will ensure that this ref update
 	// is fast-forward, that is no data has been overwritten.
 	ref := fmt.Sprintf(refsPattern, e.Namespace, e.Id().String())
-	return repo.UpdateRef(ref, e.lastCommit)
+	err = repo.UpdateRef(ref, lastCommit)
+	if err != nil {
+		return err
+	}
+
+	e.ops = append(e.ops, committed...)
+	// not strictly necessary but make equality testing easier in tests
+	e.staging = nil
+	e.lastCommit = lastCommit
+	e.editTime = editTime
+	e.createTime = createTime
+
+	return nil
 }
 
 // CreateLamportTime return the Lamport time of creation
